@@ -20,4 +20,27 @@ UniverseSane ==
     /\ TokenTextAt(Tok20, 23, "body") = "start :: fn do" \o NL \o "A a" \o NL \o "end" \o NL
     /\ Cardinality(Inputs) = NumInputs
 ASSUME UniverseSane
+
+\* the families of structured programs: sizes, corner elements, unique ids, the nesting bound
+FamIds(f) == {FamCase(f, i).id : i \in 1..FamSize(f)}
+FamiliesSane ==
+    /\ Families = <<"nest", "nestraw", "nestsolo", "place", "cyc", "selfty">>
+    /\ NestK = 22 /\ FamSize("nest") = 22 * 22 * 16 /\ FamSize("nestraw") = 4 * 4 * 16 /\ FamSize("nestsolo") = 10 * 16 + 8
+    /\ FamSize("place") = 5 * 13 * 4 * 2 + 14 * 8 /\ FamSize("cyc") = 512 /\ FamSize("selfty") = 7 * 14 * 2
+    /\ NestId(1) = "nest:ifbody/ifbody:d8:last:ok" /\ NestId(2) = "nest:ifbody/ifbody:d8:last:err"
+    /\ NestId(3) = "nest:ifbody/ifbody:d8:mid:ok" /\ NestId(5) = "nest:ifbody/ifbody:d16:last:ok"
+    /\ NestId(17) = "nest:ifbody/ifcond:d8:last:ok" /\ NestId(NestSize) = "nest:neg/neg:d32:mid:err"
+    /\ NestCase(1).files[1].text = NestPrelude \o FamLines(<<"h :: fn -> int do", "q := 0",
+            "if true do", "if true do", "if true do", "if true do", "if true do", "if true do", "if true do", "if true do", "1",
+            "else", "0", "end", "else", "0", "end", "else", "0", "end", "else", "0", "end",
+            "else", "0", "end", "else", "0", "end", "else", "0", "end", "else", "0", "end",
+            "end", "start :: fn do", "w := h()", "end">>)
+    /\ \A f \in {"nestraw", "nestsolo", "place", "cyc", "selfty"} : Cardinality(FamIds(f)) = FamSize(f)
+    /\ Cardinality({NestId(i) : i \in 1..NestSize}) = NestSize
+    \* every member is nested at least as deep as its depth class says and never deeper than the bound of the property
+    /\ \A i \in 1..NestSize : NestPiece(i).n >= NestDepthOf(i - 1) /\ NestPiece(i).n <= NestDepthOf(i - 1) + 1
+    /\ NestDepths[Len(NestDepths)] + 1 <= NestMaxLevels /\ NestMaxLevels = 40
+    /\ \A f \in {"nestsolo", "place", "cyc", "selfty"} : \A i \in 1..FamSize(f) :
+          LET c == FamCase(f, i) IN c.files[1].name = "main.sy" /\ \A q \in 1..Len(c.files) : Len(c.files[q].text) > 0
+ASSUME FamiliesSane
 =============================================================================
